@@ -4,7 +4,7 @@
    quantified: no law about them is used. *)
 From CSL Require Import Base.Prelude Cbor.Head Cbor.Item Cbor.ItemProofs
   Fixed.CborEv Fixed.CborEvProofs Fixed.DatumBytes Fixed.DatumBytesProofs Fixed.FixedTx Fixed.FixedTxProofs
-  Fixed.FuelProofs Fixed.FixedBlock Fixed.FixedBlockProofs Fixed.WfPreservation.
+  Fixed.FuelProofs Fixed.FixedBlock Fixed.FixedBlockProofs Fixed.WfPreservation Fixed.JudgeProofs.
 Local Open Scope N_scope.
 
 (* the byte-range capture (deserilized_with_orig_bytes) returns exactly the bytes its inner reader consumed *)
@@ -227,7 +227,19 @@ Theorem C04_witness_map_wf_after_ops :
 Proof. exact fixed_witness_map_wf_after_ops. Qed.
 Print Assumptions C04_witness_map_wf_after_ops.
 
+(* the judge that is run on the implementation's observations accepts the model's own observation: every input
+   on which the generic and the library-mirroring reading coincide, every operation list without
+   set_witness_set, written witness set well-formed (C04_witness_map_wf_after_ops) *)
+Theorem C04_judge_accepts_model : forall sv sb bs tx r ops,
+  same_reading bs = true -> decode_fixed (fun b => b) bs = Ok (tx, r) ->
+  Forall not_set_wits ops ->
+  wits_wf (ft_wits (run_ops (fun b => b) sv sb ops tx)) ->
+  judge bs (op_flags sv sb ops tx) (model_obs (run_ops (fun b => b) sv sb ops tx)) = VHolds.
+Proof. exact judge_accepts_model. Qed.
+Print Assumptions C04_judge_accepts_model.
+
 Check sample_tx_accepted.
+Check same_reading_example.
 Check wf_after_ops_premises.
 Check versioned_block_example.
 Check sig_ops_example.
